@@ -58,9 +58,20 @@ def hasher_updates(env, f, scope, hasher_id):
 
 def find_hasher(env, f, expr):
     """The hasher variable finalized inside `expr` -> (var id, finalize node, slice info)."""
-    for x in ir.walk(expr):
-        if x["k"] == "mcall" and x["name"] in ("finalize", "finalize_reset") and x["recv"]["k"] == "var":
-            return x["recv"]["id"], x
+    ctx = env.ctx(f)
+    seen = set()
+    stack = [expr]
+    while stack:
+        e = stack.pop()
+        for x in ir.walk(e):
+            if x["k"] == "mcall" and x["name"] in ("finalize", "finalize_reset") and x["recv"]["k"] == "var":
+                return x["recv"]["id"], x
+            # `let hash = hasher.finalize(); Digest(hash.as_slice()[..32]..)`: follow once-initialised locals
+            if x["k"] == "var" and x.get("id") not in seen:
+                seen.add(x.get("id"))
+                o = ctx.origin_node(x)
+                if o is not x:
+                    stack.append(o)
     return None, None
 
 
@@ -94,14 +105,26 @@ def hash_kind(env, f, fin):
     """(algorithm, truncated length) of the digest construction around the finalize node."""
     algo = peel_ty(fin["recv"].get("ty") or "")
     trunc = None
+
+    def range_to(a):
+        i = a["i"]
+        if i["k"] == "struct" and i["path"].endswith("RangeTo"):
+            e = i["fields"][0]["e"]
+            if e["k"] == "lit":
+                return e["v"].get("int")
+        return None
     for a in f.ancestors(fin):
         if a["k"] == "index":
-            i = a["i"]
-            if i["k"] == "struct" and i["path"].endswith("RangeTo"):
-                e = i["fields"][0]["e"]
-                if e["k"] == "lit":
-                    trunc = e["v"].get("int")
+            trunc = range_to(a)
             break
+    else:
+        # the finalize result is bound to a local first: the slice is taken from that local
+        st = next((a for a in f.ancestors(fin) if a["k"] == "slet" and a["pat"].get("k") == "pbind"), None)
+        if st is not None:
+            vid = st["pat"]["id"]
+            idx = [n for n in f.nodes() if n["k"] == "index" and any(x["k"] == "var" and x.get("id") == vid for x in ir.walk(n["e"]))]
+            if len(idx) == 1:
+                trunc = range_to(idx[0])
     return algo, trunc
 
 
